@@ -6,7 +6,7 @@ from worlds.full import FullWorld, default_cluster_spec
 from worlds.reqpath import rid_of as _rid_of, RID_RE
 
 ID = 'C46'
-TIERS = {'quick': {'runs': 2500, 'budget_s': 55, 'wall_cap': 120, 'block': 50},
+TIERS = {'quick': {'runs': 7500, 'budget_s': 55, 'wall_cap': 120, 'block': 50},
          'thorough': {'runs': 300000, 'budget_s': 840, 'wall_cap': 120, 'block': 50}}
 SHRINK_LISTS = ['requests']
 COVERAGE_RULE = ('one run = one configuration (execution-profile mode with a default profile, a named profile and a cloned profile '
